@@ -879,7 +879,7 @@ class Canon:
                 if isinstance(x, ast.Name) and isinstance(x.ctx, ast.Load):
                     uses[x.id] = uses.get(x.id, 0) + 1
             for k in list(sel):
-                if uses.get(k, 0) > 1 and any(isinstance(x, ast.Name) and x.id in sel and x.id != k and not _is_pure(sel[x.id]) for x in ast.walk(sel[k])):
+                if uses.get(k, 0) > 1 and any(isinstance(x, ast.Name) and x.id in sel and x.id != k and (not _is_pure(sel[x.id]) or _is_fresh(sel[x.id])) for x in ast.walk(sel[k])):
                     del sel[k]
             if not sel:
                 break
@@ -1242,6 +1242,12 @@ FRESH = {"zeros", "ones", "empty", "array", "asarray", "zeros_like", "ones_like"
          "arange", "linspace", "diag", "atleast_1d", "atleast_2d"}
 
 
+def _is_fresh(v):
+    """the value creates a new container each time it is evaluated"""
+    return (isinstance(v, (ast.List, ast.Dict, ast.Set)) and not (getattr(v, "elts", None) or getattr(v, "keys", None))) or \
+        (isinstance(v, ast.Call) and (v.func.attr if isinstance(v.func, ast.Attribute) else getattr(v.func, "id", "")) in FRESH)
+
+
 def _root_name(e):
     while isinstance(e, (ast.Attribute, ast.Subscript)):
         e = e.value
@@ -1491,8 +1497,7 @@ def _aliases(fn):
                         barrier = True
             if barrier:
                 continue
-        fresh = (isinstance(v, (ast.List, ast.Dict, ast.Set)) and not (getattr(v, "elts", None) or getattr(v, "keys", None))) or \
-            (isinstance(v, ast.Call) and (v.func.attr if isinstance(v.func, ast.Attribute) else getattr(v.func, "id", "")) in FRESH)
+        fresh = _is_fresh(v)
         if _is_pure(v):
             if fresh and uses > 1 and star_uses.get(k, 0) != uses:   # (a dict that is only ever unpacked with ** is not shared: every call gets its own copy of the items)
                 continue
